@@ -18,7 +18,7 @@ def run(ctx):
     h = codec.H()
     rng = random.Random(ctx.seed + 2)
     thorough = ctx.tier == 'thorough' or ctx.escalate
-    n = 6000 if thorough else 1000
+    n = 40000 if thorough else 1000
     ctx.coverage['rule'] = ('generated grids as in C06 (every kind in every position, all code points, boundary floats, all zones, depth <= 3, '
                             'versions 2.0/3.0) through dump+parse in JSON mode with text, bytes and pre-decoded input, singly and as arrays of 0-3 grids; '
                             'distinct by dumped text; non-trivial when the grid holds a non-null value')
@@ -106,7 +106,7 @@ def run(ctx):
     import datetime as _dt
     import pytz as _pytz
     sweep = []
-    for _ in range(5000 if thorough else 900):
+    for _ in range(30000 if thorough else 900):
         us = rng.choice([rng.randrange(1000000), rng.randrange(1000), rng.randrange(100000) * 10, 249, 251, 999999, 1])
         hh, mm, ss = rng.randint(0, 23), rng.randint(0, 59), rng.randint(0, 59)
         if rng.random() < 0.7:
